@@ -282,9 +282,12 @@ Fixpoint inner_inside (cur : option Z) (log : list (positive * Z * list comp)) :
            end
   end.
 
-(* 49: an inner tick outside its outer tick or with another time *)
+(* 49: an inner tick outside its outer tick or with another time;
+   45: a device was updated with an earlier time after some device had been updated with a later one
+       (ticks are serial: every update of a tick happens before the next tick starts) *)
 Definition oracle_c04 (c : sim_case) : list Z :=
   (if inner_inside None (sc_ticklog c) then [] else [49]) ++
+  (if nondecreasing (map (fun o : obs => snd (fst o)) (sc_trace c)) then [] else [45]) ++
   (if forallb (fun lv => nondecreasing (map fst (log_of_level lv (sc_ticklog c)))) (keys (sc_cfg c)) then [] else [46]).
 Definition check_sim_c04 (c : sim_case) : list Z := check_sim c ++ oracle_c04 c.
 
